@@ -14,12 +14,18 @@ import (
 
 // C03 — sign -> decode -> verify round trip binds exactly the validated claims.
 
-func c03Check(m *MClaims, c psatoken.IClaims, kp keyPair, validating bool) string {
+// c03Check signs c on an Evidence prepared by prep (nil = fresh Evidence): the
+// Evidence may already have signed or decoded something else, possibly with a
+// different algorithm.
+func c03Check(m *MClaims, c psatoken.IClaims, kp keyPair, validating bool, prep func(*psatoken.Evidence)) string {
 	want, err := psatoken.ValidateAndEncodeClaimsToCBOR(c)
 	if err != nil {
 		return "valid set does not validate-and-encode: " + err.Error()
 	}
 	ev := &psatoken.Evidence{}
+	if prep != nil {
+		prep(ev)
+	}
 	if err := ev.SetClaims(c); err != nil {
 		return "SetClaims of a valid set failed: " + err.Error()
 	}
@@ -31,6 +37,13 @@ func c03Check(m *MClaims, c psatoken.IClaims, kp keyPair, validating bool) strin
 	}
 	if err != nil {
 		return fmt.Sprintf("signing a valid set with %s failed: %v", kp.Name(), err)
+	}
+	// other work happens before the token / the signing Evidence are used
+	tokSnap := string(tok)
+	wantSnap := string(want)
+	interfere()
+	if string(tok) != tokSnap || string(want) != wantSnap {
+		return "bytes returned by the library (token / validated encoding) changed while other claims-sets were being encoded"
 	}
 	// independent parse of the token
 	n, fl, rerr := icbor.Read(tok)
@@ -112,8 +125,8 @@ func c03Check(m *MClaims, c psatoken.IClaims, kp keyPair, validating bool) strin
 }
 
 func TestC03_SignRoundTrip(t *testing.T) {
-	st := NewStats("C03", "TestC03_SignRoundTrip", "rapid: valid claims-sets of both profiles (all optional subsets, hash sizes, 1..4 components) x 7 algorithms (ES256/384/512, EdDSA, PS256/384/512) x deterministic keys, through ValidateAndSign and Sign: independent parse (tag 18, 4-array, protected {1:alg}, payload byte-identical to ValidateAndEncodeClaimsToCBOR, signature length), independent verification with empty external AAD, library decode-and-validate gives identical getters, Verify succeeds on the signing and the decoded Evidence, claims equal the decoding of the split-out payload. Non-trivial = other than the canned builder sets under ES256; distinct = (alg, key, profile, class vector)")
-	st.Require = []string{"ES256", "ES384", "ES512", "EdDSA", "PS256", "PS384", "PS512", "P1", "P2", "Sign", "ValidateAndSign"}
+	st := NewStats("C03", "TestC03_SignRoundTrip", "rapid: valid claims-sets of both profiles (all optional subsets, hash sizes, 1..4 components) x 7 algorithms (ES256/384/512, EdDSA, PS256/384/512) x deterministic keys, through ValidateAndSign and Sign, on a fresh Evidence or one that already signed / decoded (another algorithm's token) / failed to sign or decode; other claims-sets are encoded between signing and checking: independent parse (tag 18, 4-array, protected {1:alg}, payload byte-identical to ValidateAndEncodeClaimsToCBOR, signature length), independent verification with empty external AAD, library decode-and-validate gives identical getters, Verify succeeds on the signing and the decoded Evidence, claims equal the decoding of the split-out payload. Non-trivial = other than the canned builder sets under ES256; distinct = (alg, key, profile, class vector)")
+	st.Require = []string{"ES256", "ES384", "ES512", "EdDSA", "PS256", "PS384", "PS512", "P1", "P2", "Sign", "ValidateAndSign", "prior=fresh", "prior=decoded", "prior=signed"}
 	defer st.Flush(t)
 	rapid.Check(t, func(t *rapid.T) {
 		p := drawProf(t)
@@ -129,8 +142,15 @@ func TestC03_SignRoundTrip(t *testing.T) {
 		alg := rapid.SampledFrom(icose.AllAlgs).Draw(t, "alg")
 		kp := keyFor(alg, rapid.IntRange(0, 5).Draw(t, "key"))
 		validating := genBool.Draw(t, "validating")
-		if msg := c03Check(m, c, kp, validating); msg != "" {
-			t.Fatalf("C03 violated (%s, validating=%v): %s\n [%s]", kp.Name(), validating, msg, m.ClassVector())
+		prior := rapid.SampledFrom([]string{"fresh", "fresh", "signed", "vsigned", "decoded", "failed-sign", "failed-decode"}).Draw(t, "prior")
+		var prep func(*psatoken.Evidence)
+		if prior != "fresh" {
+			// the earlier use of the Evidence involves another key, usually of another algorithm
+			okp := keyFor(rapid.SampledFrom([]int64{icose.EdDSA, icose.ES256, icose.ES384, icose.PS256}).Draw(t, "prior.alg"), 4)
+			prep = func(ev *psatoken.Evidence) { c08Prior(t, ev, prior, okp) }
+		}
+		if msg := c03Check(m, c, kp, validating, prep); msg != "" {
+			t.Fatalf("C03 violated (%s, validating=%v, Evidence previously: %s): %s\n [%s]", kp.Name(), validating, prior, msg, m.ClassVector())
 		}
 		op := "Sign"
 		if validating {
@@ -140,7 +160,7 @@ func TestC03_SignRoundTrip(t *testing.T) {
 		if alg != icose.ES256 || !m.IsCanned() {
 			key = kp.Name() + "|" + m.ClassVector()
 		}
-		st.Case(key, icose.AlgName(alg), p.String(), op)
+		st.Case(key, icose.AlgName(alg), p.String(), op, "prior="+prior)
 		if key != "" && st.WantSample() {
 			st.Sample(map[string]any{"key": kp.Name(), "op": op, "claims": m.ClassVector()})
 		}
